@@ -1398,6 +1398,57 @@ func runC07LexPos(c *Ctx) {
 
 // ---- C07.ORIGIN ----
 
+// posLeaves: the values a position component is computed from, through +, - and conversions.
+func posLeaves(v ssa.Value, depth int, out *[]ssa.Value) {
+	if depth < 12 {
+		switch x := v.(type) {
+		case *ssa.BinOp:
+			if x.Op == token.ADD || x.Op == token.SUB {
+				posLeaves(x.X, depth+1, out)
+				posLeaves(x.Y, depth+1, out)
+				return
+			}
+		case *ssa.Convert:
+			posLeaves(x.X, depth+1, out)
+			return
+		case *ssa.ChangeType:
+			posLeaves(x.X, depth+1, out)
+			return
+		}
+	}
+	*out = append(*out, v)
+}
+
+// posComponentSource: v is a line (col=false) or column (col=true) of the workflow source: that component of another
+// position object or of a YAML node, or an integer parameter (what callers pass for it is the business of C07.ARGS). A
+// column inside a pattern or inside an expression (InvalidGlobPattern.Column, Token.Column) is an offset, not a source.
+func posComponentSource(v ssa.Value, col bool, self *ssa.Alloc) bool {
+	if pr, ok := v.(*ssa.Parameter); ok {
+		b, ok := pr.Type().Underlying().(*types.Basic)
+		return ok && b.Info()&types.IsInteger != 0
+	}
+	f, base := fieldLoad(v)
+	if f == "" || base == ssa.Value(self) {
+		return false
+	}
+	if col {
+		return f == "Pos.Col" || f == "yaml.Node.Column"
+	}
+	return f == "Pos.Line" || f == "yaml.Node.Line"
+}
+
+// wholePosSource: v (stored into self as a whole) is another position: *q for a position pointer q that is not self, the
+// Pos result of a call, or a Pos kept in a field.
+func wholePosSource(v ssa.Value, self *ssa.Alloc) bool {
+	switch x := v.(type) {
+	case *ssa.UnOp:
+		return x.Op == token.MUL && x.X != ssa.Value(self)
+	case *ssa.Call, *ssa.Field, *ssa.Extract, *ssa.Phi, *ssa.Parameter:
+		return true
+	}
+	return false
+}
+
 func runC07Origin(c *Ctx) {
 	p := c.P
 	occ := map[string]int{}
@@ -1410,50 +1461,146 @@ func runC07Origin(c *Ctx) {
 			k := FuncName(fn) + "|Pos object"
 			occ[k]++
 			construct := fmt.Sprintf("%s#%d", k, occ[k])
-			// how is it filled: whole-struct copy, or per-field stores
-			var lineF, colF linForm
+			// A component is established by a store that takes it from the source (the whole object copied from another
+			// position, or the field set from a source line/column without reading the object itself). Every other use
+			// of the component - a read, an adjustment such as p.Col++, the object handed to a call - has to come after
+			// an establishing store on every path from the creation of the object: else it sees (or adjusts) the zero
+			// value the object was created with.
+			type compState struct {
+				est   map[ssa.Instruction]bool
+				uses  []ssa.Instruction
+				form  string
+				wrote bool
+			}
+			comps := map[bool]*compState{false: {est: map[ssa.Instruction]bool{}}, true: {est: map[ssa.Instruction]bool{}}}
 			copyOf := ""
 			for _, ref := range *al.Referrers() {
 				switch r := ref.(type) {
+				case *ssa.DebugRef:
 				case *ssa.Store:
 					if r.Addr == ssa.Value(al) {
-						copyOf = symName(r.Val)
+						for _, cs := range comps {
+							cs.wrote = true
+							if wholePosSource(r.Val, al) {
+								cs.est[r] = true
+							} else {
+								cs.uses = append(cs.uses, r)
+							}
+						}
+						if wholePosSource(r.Val, al) && copyOf == "" {
+							copyOf = symName(r.Val)
+							if ld, isLoad := r.Val.(*ssa.UnOp); isLoad {
+								copyOf = "*" + symName(ld.X)
+							}
+						}
+						continue
+					}
+					for _, cs := range comps {
+						cs.uses = append(cs.uses, r) // the address is stored somewhere
 					}
 				case *ssa.FieldAddr:
+					name := fieldAddrName(r)
+					if name != "Pos.Line" && name != "Pos.Col" {
+						continue
+					}
+					cs := comps[name == "Pos.Col"]
 					for _, r2 := range *r.Referrers() {
-						if st, ok := r2.(*ssa.Store); ok && st.Addr == ssa.Value(r) {
-							switch fieldAddrName(r) {
-							case "Pos.Line":
-								if lineF == nil {
-									lineF = linOf(st.Val, 0)
-								}
-							case "Pos.Col":
-								if colF == nil {
-									colF = linOf(st.Val, 0)
-								}
+						if _, dbg := r2.(*ssa.DebugRef); dbg {
+							continue
+						}
+						st, isStore := r2.(*ssa.Store)
+						if !isStore || st.Addr != ssa.Value(r) {
+							cs.uses = append(cs.uses, r2)
+							continue
+						}
+						cs.wrote = true
+						var leaves []ssa.Value
+						posLeaves(st.Val, 0, &leaves)
+						sourced, clean := false, true
+						for _, l := range leaves {
+							if _, isConst := l.(*ssa.Const); isConst {
+								continue
 							}
+							if posComponentSource(l, name == "Pos.Col", al) {
+								sourced = true
+							} else if _, base := fieldLoad(l); base == ssa.Value(al) {
+								clean = false // reads the object itself
+							}
+						}
+						if sourced && clean {
+							cs.est[st] = true
+							if cs.form == "" {
+								cs.form = linOf(st.Val, 0).String()
+							}
+						} else {
+							cs.uses = append(cs.uses, st)
+						}
+					}
+				default:
+					for _, cs := range comps {
+						cs.uses = append(cs.uses, ref)
+					}
+				}
+			}
+			// unestablished: a use of the component that can be reached from the creation of the object without passing
+			// an establishing store
+			unestablished := func(cs *compState) ssa.Instruction {
+				isUse := map[ssa.Instruction]bool{}
+				for _, u := range cs.uses {
+					isUse[u] = true
+				}
+				type at struct {
+					b *ssa.BasicBlock
+					i int
+				}
+				seen := map[*ssa.BasicBlock]bool{}
+				work := []at{{al.Block(), instrIndex(al) + 1}}
+				for len(work) > 0 {
+					w := work[len(work)-1]
+					work = work[:len(work)-1]
+					stopped := false
+					for _, in := range w.b.Instrs[w.i:] {
+						if cs.est[in] || in == ssa.Instruction(al) {
+							stopped = true
+							break
+						}
+						if isUse[in] {
+							return in
+						}
+					}
+					if stopped {
+						continue
+					}
+					for _, s := range w.b.Succs {
+						if !seen[s] {
+							seen[s] = true
+							work = append(work, at{s, 0})
 						}
 					}
 				}
+				return nil
 			}
-			hasSym := func(l linForm) bool {
-				for k, v := range l {
-					if k != "1" && v != 0 {
-						return true
-					}
-				}
-				return false
+			lineU, colU := unestablished(comps[false]), unestablished(comps[true])
+			describe := func(u ssa.Instruction) string {
+				return fmt.Sprintf("used in line %d on a path where it was not yet taken from a source position", p.Fset.Position(u.Pos()).Line)
 			}
 			switch {
-			case copyOf != "":
-				c.ok(construct, al.Pos(), "copy of "+copyOf)
-			case lineF != nil && colF != nil && hasSym(lineF) && hasSym(colF):
-				c.ok(construct, al.Pos(), "Line = "+lineF.String()+"; Col = "+colF.String())
-			case lineF == nil && colF == nil:
+			case !comps[false].wrote && !comps[true].wrote:
 				// zero value used as a variable (filled elsewhere) - look for it being returned/used as is
 				c.bad(construct, al.Pos(), "a zero position object is created: diagnostics at it have line 0, column 0")
+			case lineU != nil && colU != nil:
+				c.bad(construct, al.Pos(), "a position is created of which, on some path, neither line nor column comes from a source position: "+describe(lineU))
+			case lineU != nil:
+				c.bad(construct, al.Pos(), "a position is created whose line does not come from a source position (it is constant, missing, or computed from the object's own zero value): "+describe(lineU))
+			case colU != nil:
+				c.bad(construct, al.Pos(), "a position is created whose column does not come from a source position (it is constant, missing, or computed from the object's own zero value): "+describe(colU))
+			case len(comps[false].est) == 0 || len(comps[true].est) == 0:
+				// never used and never established: nothing reads it, but it is not a position either
+				c.bad(construct, al.Pos(), "a position with a constant or missing component is created")
+			case copyOf != "":
+				c.ok(construct, al.Pos(), "copy of "+copyOf+", adjusted only after the copy")
 			default:
-				c.bad(construct, al.Pos(), fmt.Sprintf("a position with a constant or missing component is created (Line=%v Col=%v)", lineF, colF))
+				c.ok(construct, al.Pos(), "Line = "+comps[false].form+"; Col = "+comps[true].form)
 			}
 		})
 	}
